@@ -40,6 +40,12 @@ pub enum Op {
     /// it. tamper: 0 none, 1 nonce, 2 file name, 3 MIME type, 4 content hash, 5 scheme version,
     /// 6 ciphertext bit flip, 7 truncation
     MediaDownload { msg: EvRef, tamper: u8, seed: u32 },
+    /// an admin encrypts a group image (format 2 = seed in image_key, 1 = legacy direct key) and
+    /// publishes hash / key / nonce in the group data
+    SetGroupImage { g: usize, seed: u32, format: u8 },
+    /// a client fetches the blob named by its own group record and decrypts it. tamper: 0 none,
+    /// 1 blob bit, 2 blob truncated, 3 nonce bit, 4 key bit, 5 blob bit without expected hash
+    GroupImageDownload { g: usize, tamper: u8, seed: u32 },
     /// Byzantine / hostile operations are defined in `hostile.rs` and carried opaquely here
     Hostile(crate::hostile::HostileOp),
     Nop,
@@ -206,6 +212,8 @@ pub struct World {
     pub count_ticks: bool,
     /// C13: keep the bytes of every file of a SQLCipher node's directory as they are at each
     /// transaction tick of the current step (label, file name, bytes)
+    /// encrypted group images by hex(encrypted hash): (ciphertext, what the uploader itself decrypts)
+    pub group_blobs: BTreeMap<String, (Vec<u8>, Vec<u8>)>,
     pub capture_sidecars: bool,
     pub sidecar_captures: Vec<(String, String, Vec<u8>)>,
     pub last_crash: Option<(u32, usize, u64, String)>,
@@ -292,6 +300,7 @@ impl World {
             arm_baseline: None,
             txn_baseline_view: None,
             count_ticks: false,
+            group_blobs: BTreeMap::new(),
             capture_sidecars: false,
             sidecar_captures: vec![],
             last_crash: None,
@@ -813,8 +822,8 @@ impl World {
                 if *imeta {
                     let size = [0usize, 1, 31, 1024, 70_000][(*tag % 5) as usize];
                     let mut r = crate::rng::Rng::new(self.seed ^ ((step.id as u64) << 20) ^ *tag as u64);
-                    let data = r.bytes(size);
-                    let mime = ["text/plain", "application/pdf", "audio/mpeg", "video/mp4"][(*tag % 4) as usize];
+                    let mime = ["text/plain", "application/pdf", "audio/mpeg", "video/mp4", "image/png", "image/jpeg", "image/gif", "image/webp"][(*tag % 8) as usize];
+                    let data = if mime.starts_with("image/") { sim_image(&mut r, mime) } else { r.bytes(size) };
                     let fname = format!("file-{}-{tag}.bin", step.id);
                     let up = with_mdk!(self.nodes[node].mdk(), m => m.media_manager(gid.clone()).encrypt_for_upload(&data, mime, &fname).map(|u| {
                         let t = m.media_manager(gid.clone()).create_imeta_tag(&u, &format!("https://blossom.sim.example/{}", hex::encode(u.encrypted_hash)));
@@ -822,8 +831,24 @@ impl World {
                     }));
                     match up {
                         Ok((enc, t)) => {
+                            // image families are validated against the bytes and may be re-encoded
+                            // (metadata stripped): the reference is what the sender itself decrypts
+                            let reference = if mime.starts_with("image/") {
+                                let own: Result<Vec<u8>, String> = with_mdk!(self.nodes[node].mdk(), m => (|| {
+                                    let mm = m.media_manager(gid.clone());
+                                    let rf = mm.parse_imeta_tag(&t).map_err(|e| format!("parse: {e}"))?;
+                                    mm.decrypt_from_download(&enc, &rf).map_err(|e| format!("{e}"))
+                                })());
+                                match own {
+                                    Ok(b) => b,
+                                    Err(e) => return Outcome::new("err", format!("Err(media: sender cannot decrypt its own upload: {e})")),
+                                }
+                            } else {
+                                data
+                            };
+                            self.probe(if mime.starts_with("image/") { "media_image_family" } else { "media_other_family" });
                             tags.push(t);
-                            blob = Some((enc, data));
+                            blob = Some((enc, reference));
                         }
                         Err(e) => return Outcome::new("err", format!("Err(media: {e})")),
                     }
@@ -1049,6 +1074,87 @@ impl World {
                 Ok(false) => Outcome::new("skipped", "memory backend: restart not applicable"),
                 Err(e) => Outcome::new("err", format!("restart failed: {e}")),
             },
+            Op::SetGroupImage { g, seed, format } => {
+                let Some(gid) = self.gid(*g) else { return Outcome::new("skipped", "no group") };
+                let mut r = crate::rng::Rng::new(*seed as u64 ^ self.seed);
+                let mime = ["image/png", "image/jpeg", "image/webp", "image/gif"][r.below(4) as usize];
+                let img = sim_image(&mut r, mime);
+                let up = match mdk_core::extension::group_image::prepare_group_image_for_upload(&img, mime) {
+                    Ok(u) => u,
+                    Err(e) => return Outcome::new("err", format!("Err(group image: {e})")),
+                };
+                let (enc, hash, key, nonce, upload_key): (Vec<u8>, [u8; 32], [u8; 32], [u8; 12], Option<[u8; 32]>) = if *format == 1 {
+                    // legacy format: the published key is the cipher key itself
+                    use chacha20poly1305::aead::{Aead, KeyInit};
+                    let plain = match mdk_core::extension::group_image::decrypt_group_image(up.encrypted_data.as_ref(), Some(&up.encrypted_hash), &up.image_key, &up.image_nonce) {
+                        Ok(p) => p,
+                        Err(e) => return Outcome::new("err", format!("Err(group image: uploader cannot decrypt: {e})")),
+                    };
+                    let key: [u8; 32] = r.bytes(32).try_into().unwrap();
+                    let nonce: [u8; 12] = r.bytes(12).try_into().unwrap();
+                    let c = chacha20poly1305::ChaCha20Poly1305::new_from_slice(&key).unwrap();
+                    let enc = c.encrypt(chacha20poly1305::Nonce::from_slice(&nonce), plain.as_slice()).unwrap();
+                    let hash = sha2_32(&enc);
+                    (enc, hash, key, nonce, None)
+                } else {
+                    (up.encrypted_data.as_ref().clone(), up.encrypted_hash, *up.image_key.as_ref(), *up.image_nonce.as_ref(), Some(*up.image_upload_key.as_ref()))
+                };
+                let reference = match mdk_core::extension::group_image::decrypt_group_image(&enc, Some(&hash), &mdk_storage_traits::Secret::new(key), &mdk_storage_traits::Secret::new(nonce)) {
+                    Ok(p) => p,
+                    Err(e) => return Outcome::new("err", format!("Err(group image: uploader cannot decrypt: {e})")),
+                };
+                self.sensitive.insert(hex::encode(key));
+                let mut upd = NostrGroupDataUpdate::new().image_hash(Some(hash)).image_key(Some(key)).image_nonce(Some(nonce));
+                if let Some(uk) = upload_key {
+                    self.sensitive.insert(hex::encode(uk));
+                    upd = upd.image_upload_key(Some(uk));
+                }
+                let res = with_mdk!(self.nodes[node].mdk(), m => m.update_group_data(&gid, upd));
+                match res {
+                    Ok(u) => {
+                        self.group_blobs.insert(hex::encode(hash), (enc, reference));
+                        self.probe(if *format == 1 { "group_image_set_v1" } else { "group_image_set_v2" });
+                        let c = self.register_commit(step, 0, node, *g, u.evolution_event, format!("group-image-v{format}"), &pre_state.get(g).cloned());
+                        let mut o = Outcome::new("ok", "group image commit created");
+                        o.created = vec![c];
+                        o
+                    }
+                    Err(e) => Outcome::new("err", format!("Err({e})")),
+                }
+            }
+            Op::GroupImageDownload { g, tamper, seed } => {
+                let Some(gid) = self.gid(*g) else { return Outcome::new("skipped", "no group") };
+                let rec = with_mdk!(self.nodes[node].mdk(), m => m.get_group(&gid));
+                let Ok(Some(rec)) = rec else { return Outcome::new("skipped", "group not held") };
+                let (Some(hash), Some(key), Some(nonce)) = (rec.image_hash, rec.image_key.clone(), rec.image_nonce.clone()) else { return Outcome::new("skipped", "no image in the record") };
+                let Some((mut enc, reference)) = self.group_blobs.get(&hex::encode(hash)).cloned() else { return Outcome::new("skipped", "no such blob") };
+                let mut r = crate::rng::Rng::new(*seed as u64 ^ self.seed);
+                let mut key = *key.as_ref();
+                let mut nonce = *nonce.as_ref();
+                let mut expect = Some(hash);
+                match tamper {
+                    1 | 5 if !enc.is_empty() => {
+                        let i = r.below(enc.len() as u64) as usize;
+                        enc[i] ^= 1 << r.below(8);
+                        if *tamper == 5 {
+                            expect = None;
+                        }
+                    }
+                    2 if !enc.is_empty() => {
+                        let n = r.below(enc.len() as u64) as usize;
+                        enc.truncate(n);
+                        expect = None;
+                    }
+                    3 => nonce[r.below(12) as usize] ^= 1 << r.below(8),
+                    4 => key[r.below(32) as usize] ^= 1 << r.below(8),
+                    _ => {}
+                }
+                let res = mdk_core::extension::group_image::decrypt_group_image(&enc, expect.as_ref(), &mdk_storage_traits::Secret::new(key), &mdk_storage_traits::Secret::new(nonce));
+                match res {
+                    Ok(b) => Outcome::new("gimage_ok", format!("group image ok equal={} tamper={tamper} state={}", b == reference, rec.state)),
+                    Err(e) => Outcome::new("gimage_err", format!("group image err tamper={tamper} state={}: {}", rec.state, e.to_string().chars().take(80).collect::<String>())),
+                }
+            }
             Op::MediaDownload { msg, tamper, seed } => {
                 let Some(l) = self.ledger.iter().find(|l| l.origin == *msg).cloned() else { return Outcome::new("skipped", "no such message") };
                 let Some((mut enc, orig)) = self.blobs.get(msg).cloned() else { return Outcome::new("skipped", "no blob") };
@@ -1160,4 +1266,26 @@ pub fn copy_dir(from: &std::path::Path, to: &std::path::Path) {
             }
         }
     }
+}
+
+
+/// A small valid image of the given MIME family (seeded pixels and dimensions).
+pub fn sim_image(r: &mut crate::rng::Rng, mime: &str) -> Vec<u8> {
+    let (w, h) = (1 + r.below(24) as u32, 1 + r.below(24) as u32);
+    let px = r.bytes((w * h * 3) as usize);
+    let img = image::RgbImage::from_raw(w, h, px).expect("image buffer");
+    let fmt = match mime {
+        "image/png" => image::ImageFormat::Png,
+        "image/jpeg" => image::ImageFormat::Jpeg,
+        "image/gif" => image::ImageFormat::Gif,
+        _ => image::ImageFormat::WebP,
+    };
+    let mut out = std::io::Cursor::new(Vec::new());
+    let dynimg = image::DynamicImage::ImageRgb8(img);
+    if fmt == image::ImageFormat::Gif {
+        dynimg.to_rgba8().write_to(&mut out, fmt).expect("encode");
+    } else {
+        dynimg.write_to(&mut out, fmt).expect("encode");
+    }
+    out.into_inner()
 }
